@@ -142,13 +142,62 @@ def check_case(run, case, want_keyspace=False):
         if not want_keyspace:
             repo.drop_rules(name)
 
+def check_entrypoint(run, case):
+    """The level "the scorer reports" is what its entry point PCFGPasswordScorer.parse returns (4th field), for every kind of string - also those it classifies
+    as e-mail / website, which the trainer's third pass and the Markov generator treat like any other string.  Ordinary lists, alphabet 100, max_len 21:
+    the generator is not enumerated here; the anchor is the level computed from the files."""
+    from . import c13
+    name, path, res = trained.train_case(case, 'c11e')
+    try:
+        if not res.ok or res.omen_trainer is None:
+            run.ev('trainings_not_completed'); run.inconc('training did not complete'); return
+        repo.scratch()
+        from lib_trainer.omen.evaluate_password import find_omen_level
+        model = oracles.OmenModel(os.path.join(path, 'Omen'))
+        sc = c13.load_scorer(path)
+        accepted = list(dict.fromkeys(res.passes[0]['yielded']))
+        words = [w for w in accepted if w.isalpha()][:4] or ['love']
+        cands = accepted + trainlists.EMAILS + trainlists.SITES + [w + t for w in words for t in ('.com', '.net', '.org', '@gmail.com')] + ['www.' + w + '.com' for w in words]
+        cands += [p[:-1] for p in accepted[:10] if len(p) > 2] + [p + '1' for p in accepted[:10]]
+        n_ew = 0
+        for s_ in dict.fromkeys(cands):
+            if not oracles.valid_password(s_) or not trainlists.encodable(s_, case['encoding']):
+                continue
+            lt = find_omen_level(res.omen_trainer, s_)
+            out = sc.parse(s_)
+            lp, ls, lr = out[3], sc.omen.parse(s_), model.level(s_)
+            run.ev('entrypoint_level_comparisons')
+            if out[1] in ('e', 'w'):
+                n_ew += 1
+                if lr >= 0:
+                    run.ev('email_website_strings_with_a_level')
+            if not (lt == lp == ls == lr):
+                run.violation(f'OMEN level of {s_!r} (scorer category {out[1]!r}): trainer {lt}, scorer entry point {lp}, OmenScorer {ls}, reference (from the files) {lr}', case,
+                              observed={'trainer': lt, 'PCFGPasswordScorer.parse': lp, 'OmenScorer.parse': ls, 'reference': lr}); return
+        run.ev('entrypoint_rulesets')
+        run.case(h(['entry', case['items'], case['ngram'], case['encoding']]) if n_ew else None)
+    finally:
+        repo.drop_rules(name)
+
+def gen_entry_case(rng):
+    case = trained.gen_train_case(rng, encodings=['utf-8', 'utf-8', 'latin-1'], coverages=(0.6,), max_len_choices=(21,))
+    case['alphabet'], case['coverage'] = 100, 0.6
+    case['items'] = case['items'] + [[e, rng.choice([1, 2, 3])] for e in rng.sample(trainlists.EMAILS + trainlists.SITES + ['master.com', 'love.net', 'bob@love.org'], 4)]
+    case['entry'] = True
+    return case
+
 def run(run, rng):
-    run.required_events = ['level_comparisons', 'per_level_files_compared', 'nontrivial_candidates']
+    run.required_events = ['level_comparisons', 'per_level_files_compared', 'nontrivial_candidates', 'entrypoint_level_comparisons', 'email_website_strings_with_a_level']
     run.min_distinct = 8
     run.assumptions = ['max_len 5-8 is a harness bound handed to run_trainer (same code path as the default 21) so that the generator side can be enumerated',
                        'models above 60000 strings are not decided']
     for i in range(N[run.tier]):
         run.guard(gen_case(rng), check_case, seconds=240)
+    for i in range(max(3, N[run.tier] // 6)):
+        run.guard(gen_entry_case(rng), check_entrypoint, seconds=240)
 
 def replay(run, case):
-    check_case(run, case['case'])
+    if case['case'].get('entry'):
+        check_entrypoint(run, case['case'])
+    else:
+        check_case(run, case['case'])
